@@ -333,3 +333,52 @@ def object_history(seed, tables, nops=40, ntok=2):
             h.open(t, rng.random() < 0.5)
     h.op("fini")
     return h.text()
+
+
+def flag_matrix(tables, seed=1):
+    """EXHAUSTIVE small scope for the protection flags: every secret/private key class x (SENSITIVE, EXTRACTABLE, WRAP_WITH_TRUSTED) in {0,1}^3
+    at creation, then: read every secret attribute with NULL / 0 / short / exact / large buffers (alone and mixed), try to weaken each flag by
+    C_SetAttributeValue and by C_CopyObject, strengthen each flag, re-read the flags of the object and of the copies."""
+    rng = random.Random(seed)
+    h = ObjGen(rng, tables)
+    h.prologue(1)
+    t = h.toks[0]
+    k = h.open(t, True); h.login(k, t, 'user')
+    SECRET = (0x11, 0x123, 0x124, 0x125, 0x126, 0x127, 0x128)
+    for c in h.classes:
+        if c["cls"] not in (3, 4): continue
+        has = {a["type"]: a for a in c["attrs"]}
+        for sens in (0, 1):
+            for extr in (0, 1):
+                for wwt in (0, 1):
+                    lab = h.new_label()
+                    tpl = h.base_template(c, False, True, lab)
+                    for a in c["attrs"]:
+                        if a["checks"] & CK[1] and a["type"] not in (0, 0x100):
+                            tpl.append(f"{a['type']:x}={attr_value(rng, a, True, c['name'])}")
+                    for ty in SECRET:
+                        if ty in has and not any(x.startswith(f"{ty:x}=") for x in tpl):
+                            tpl.append(f"{ty:x}={bytes(rng.randrange(1, 256) for _ in range(16)).hex()}")
+                    tpl += [f"103={sens:02x}", f"162={extr:02x}", f"210={wwt:02x}"]
+                    o = h.op(f"create @{k} " + " ".join(tpl)); h.minted += 1
+                    sec = [ty for ty in SECRET if ty in has]
+                    for ty in sec:
+                        h.op(f"getattr @{k} @{o} {ty:x}:n {ty:x}:0 {ty:x}:15 {ty:x}:16 {ty:x}:64")
+                    h.op(f"getattr @{k} @{o} 3:64 " + " ".join(f"{ty:x}:64" for ty in sec) + " 103:1 162:1 210:1 163:1 164:1 165:1")
+                    # weaken / strengthen by C_SetAttributeValue
+                    for ty, weak in ((0x103, 0), (0x162, 1), (0x210, 0)):
+                        h.op(f"setattr @{k} @{o} {ty:x}={weak:02x}")
+                        h.op(f"setattr @{k} @{o} 3={hx(lab)} {ty:x}={weak:02x}")
+                    h.op(f"getattr @{k} @{o} 103:1 162:1 210:1 164:1 165:1")
+                    # … by C_CopyObject
+                    for ty, weak in ((0x103, 0), (0x162, 1), (0x210, 0)):
+                        cp = h.op(f"copy @{k} @{o} 3={hx(h.new_label())} {ty:x}={weak:02x}"); h.minted += 1
+                        h.op(f"getattr @{k} @{cp} 103:1 162:1 210:1 164:1 165:1 " + " ".join(f"{ty2:x}:64" for ty2 in sec[:2]))
+                    cp = h.op(f"copy @{k} @{o} 3={hx(h.new_label())} 103=01 162=00 210=01"); h.minted += 1
+                    h.op(f"getattr @{k} @{cp} 103:1 162:1 210:1 164:1 165:1 " + " ".join(f"{ty2:x}:64" for ty2 in sec[:2]))
+                    h.op(f"setattr @{k} @{o} 103=01"); h.op(f"setattr @{k} @{o} 162=00"); h.op(f"setattr @{k} @{o} 210=01")
+                    h.op(f"setattr @{k} @{o} 162=01"); h.op(f"setattr @{k} @{o} 103=00"); h.op(f"setattr @{k} @{o} 210=00")
+                    h.op(f"getattr @{k} @{o} 103:1 162:1 210:1 164:1 165:1 " + " ".join(f"{ty2:x}:64" for ty2 in sec))
+                    h.op(f"destroy @{k} @{o}")
+    h.op("fini")
+    return h.text()
